@@ -138,9 +138,9 @@ def noteOp (d : D) (op : Op) : D :=
     let t := { t with lockOps := t.lockOps + 1 }
     let bad := !wfLock i
     let t := if bad then { t with wfViolations := t.wfViolations + 1 } else t
-    let ex := excludedLock d.s i
+    let ex := relockFallsThrough d.s i
     let t := if ex then (if i.err.isNone then { t with exLoie := t.exLoie + 1 } else { t with exFail := t.exFail + 1 }) else t
-    { d with t := t, adm := d.adm && !bad && !ex }
+    { d with t := t, adm := d.adm && !bad }
   | .rollback | .commit =>
     if endOk d.s then d else { d with t := { t with exPending := t.exPending + 1 }, adm := false }
   | _ => d
@@ -207,6 +207,6 @@ def main (args : List String) : IO Unit := do
     IO.FS.writeFile path
       ("{" ++ s!"\"cases\":{t.cases},\"cases_inside_proved_fragment\":{t.admissible},\"lock_ops\":{t.lockOps}," ++
        s!"\"store_contract_violations\":{t.wfViolations},\"store_contract_violation_lines\":[{",".intercalate (t.wfLines.map jsonStr)}]," ++
-       s!"\"excluded_steps_loie_not_found\":{t.exLoie},\"excluded_steps_relock_wc_ke\":{t.exFail},\"excluded_steps_end_inside_stage\":{t.exPending}," ++
+       s!"\"relock_entry_put_back_loie_not_found\":{t.exLoie},\"relock_entry_put_back_wc_ke\":{t.exFail},\"excluded_steps_end_inside_stage\":{t.exPending}," ++
        s!"\"chk_noleak\":{t.leakChecks},\"model_leaks_inside_fragment\":{t.leaksInside},\"model_leaks_outside_fragment\":{t.leaksOutside}" ++ "}\n")
   | _ => pure ()
